@@ -49,9 +49,23 @@ func c05Value(r *Rand, t TypeSpec, tag string) string {
 	return strconv.Itoa(r.Intn(100000))
 }
 
+const c05Prod = 17 * 2 * 3 * 3 * 4 * 3 * 4
+
 func c05Run(c *Ctx) {
 	r := c.R
 	k := c.K
+	if c.W.Tier != "race" && ((c.W.Tier == "thorough" && k >= c05Prod*30) || (c.W.Tier != "thorough" && k >= c05Prod)) {
+		// the environment variable an option reads is the one its declaration names NOW
+		hc := &DeclCfg{MaxDepth: 2, MaxFan: 2, PCmds: 50, Types: c05Types[:13], OptsMin: 1, OptsMax: 3, SubGroupsMax: 2, NestMax: 2,
+			PEnv: 80, PEnvNS: 80, PEnvDelim: 50, PDefault: 30, PByTag: 50, PExec: 30, PSubOptional: 100, PNamespace: 20,
+			ParserOpts: []flags.Options{0, flags.PassDoubleDash}, EnvDelims: []string{"", "_", "__", "-"}}
+		dh := GenDecl(c.Sub("dh"), hc)
+		c.Case(func() interface{} { return map[string]interface{}{"declaration_after_the_change": dh.Describe()} })
+		if hl := histEnvStage(c, dh); hl != "" && !c.Violated() {
+			c.Held("history/"+hl, fmt.Sprintf("opts=%d", minInt(len(dh.Opts), 20)))
+		}
+		return
+	}
 	t := c05Types[k%int64(len(c05Types))]
 	k /= int64(len(c05Types))
 	pre := k%2 == 1
@@ -339,17 +353,17 @@ func init() {
 		Cases: func(tier string) int64 {
 			switch tier {
 			case "thorough":
-				return 17 * 2 * 3 * 3 * 4 * 3 * 4 * 30
+				return c05Prod*30 + 51000 // the product 30 times over, then histories
 			case "race":
 				return 100000
 			}
-			return 17 * 2 * 3 * 3 * 4 * 3 * 4
+			return c05Prod + 1700 // the exhaustive product, then histories
 		},
 		Run:           c05Run,
 		MinNontrivial: 300,
 		RaceCases:     100000,
 		Rule: "case k decodes to the exhaustive product: 17 option types (scalars, pointers, slices, slice of pointers, maps, Duration, Unmarshalers incl. a bool-kinded and an appending one, bool, []bool counting flag) x pre-stored value {absent, present} x default tags {0,1,2} x environment {unset, set, set-but-empty} x INI {none, normal before CLI, as-defaults before CLI, as-defaults after CLI} x command-line occurrences {0,1,2} x home {root, group with env-namespace, doubly nested, sub-command}; random values, env-delim {none , ;}, 4 env-namespace delimiters, env keys / inner namespaces / long names that happen to start with their own namespace and delimiter, section names in random case, INI key by field name or namespaced long name, 1-3 entries for multi-valued options. " +
-			"Oracle: the field equals exactly the reference conversion of the values of the highest-ranked source present (CLI > INI > env > default tags > pre-stored); an unrelated option keeps its default. Non-trivial = judged cell; distinct = (type, top source, INI mode, full source subset, home, delimiter, #values).",
+			"Oracle: the field equals exactly the reference conversion of the values of the highest-ranked source present (CLI > INI > env > default tags > pre-stored); an unrelated option keeps its default. Non-trivial = judged cell; distinct = (type, top source, INI mode, full source subset, home, delimiter, #values). The cases after the product are histories: [parse or help, rename an env-namespace / change the env-namespace delimiter, export the variable under its new name, parse] compared with a fresh parser of the changed declaration.",
 		Assumptions: []string{"set-but-empty environment variables are unspecified (the unchanged code treats them as providing \"\")", "normal-mode INI read after the command line is not ranked by the statement and is not generated", "callback options get no defaults"},
 		Technique:   "runtime reference-model monitor over the exhaustive product of value sources, real environment variables and INI readers; race detector on a concurrent re-run with disjoint env keys (thorough)",
 		LevelText:   "Exploration with an exhaustive source-subset matrix: every cell of (type x sources x order) is executed at every seed and judged by a precedence oracle; the thorough tier repeats each cell 30x with fresh values and re-runs 10^5 cases on 16 goroutines under -race.",
